@@ -210,10 +210,17 @@ func buildUniverse() (*universe, error) {
 		lA.with(func(d *desc) { d.id = "L-byA-serverAuth"; d.eku = []gx509.ExtKeyUsage{gx509.ExtKeyUsageServerAuth} }),
 		lA.with(func(d *desc) { d.id = "L-byA-clientAuth"; d.eku = []gx509.ExtKeyUsage{gx509.ExtKeyUsageClientAuth} }),
 		lA.with(func(d *desc) { d.id = "L-byA-anyEKU"; d.eku = []gx509.ExtKeyUsage{gx509.ExtKeyUsageAny} }),
-		lA.with(func(d *desc) { d.id = "L-byA-both"; d.eku = []gx509.ExtKeyUsage{gx509.ExtKeyUsageServerAuth, gx509.ExtKeyUsageClientAuth} }),
+		lA.with(func(d *desc) {
+			d.id = "L-byA-both"
+			d.eku = []gx509.ExtKeyUsage{gx509.ExtKeyUsageServerAuth, gx509.ExtKeyUsageClientAuth}
+		}),
 		lA.with(func(d *desc) { d.id = "L-byA-wildcard"; d.dns = []string{"*.example.test"} }),
 		lA.with(func(d *desc) { d.id = "L-byA-ip"; d.dns = nil; d.ips = []string{"10.0.0.1"} }),
-		lA.with(func(d *desc) { d.id = "L-byA-dns+ip"; d.dns = []string{"www.example.test", "alt.example.test"}; d.ips = []string{"10.0.0.1", "2001:db8::1"} }),
+		lA.with(func(d *desc) {
+			d.id = "L-byA-dns+ip"
+			d.dns = []string{"www.example.test", "alt.example.test"}
+			d.ips = []string{"10.0.0.1", "2001:db8::1"}
+		}),
 	}
 	for _, d := range leafDescs {
 		if err := add(&u.leaves, d); err != nil {
